@@ -17,13 +17,13 @@ Definition n_le := nm [60;61]%N. Definition n_ge := nm [62;61]%N. Definition n_i
 
 (* the rule table as data: which names have a binary rule / a unary (outer) rule; the order is the one of
    make_partial_derivative_ops *)
-Inductive brule := BPow | BAdd | BSub | BMul | BDiv | BDerIsVal | BPerOperand.
+Inductive brule := BPow | BAdd | BSub | BMul | BDiv | BDerIsVal | BPerOperand | BCond.
 Inductive urule := UOne | UNegOne | USqrt | ULn | ULog10 | ULog2 | UExp | USin | UCos | UTan | UAsin | UAcos | UAtan
                  | USinh | UCosh | UTanh | UAsinh | UAcosh | UAtanh.
 Definition rule_table : list (str * option brule * option urule) :=
   [ (s_pow, Some BPow, None); (s_plus, Some BAdd, Some UOne); (s_minus, Some BSub, Some UNegOne); (s_mul, Some BMul, None);
     (n_gt, Some BDerIsVal, None); (n_lt, Some BDerIsVal, None); (n_ne, Some BDerIsVal, None); (n_eq, Some BDerIsVal, None);
-    (n_le, Some BDerIsVal, None); (n_ge, Some BDerIsVal, None); (n_if, Some BPerOperand, None); (n_else, Some BPerOperand, None);
+    (n_le, Some BDerIsVal, None); (n_ge, Some BDerIsVal, None); (n_if, Some BCond, None); (n_else, Some BPerOperand, None);
     (s_div, Some BDiv, None);
     (n_sqrt, None, Some USqrt); (n_ln, None, Some ULn); (n_log, None, Some ULn); (n_log10, None, Some ULog10); (n_log2, None, Some ULog2);
     (n_exp, None, Some UExp); (n_sin, None, Some USin); (n_cos, None, Some UCos); (n_tan, None, Some UTan);
@@ -80,6 +80,9 @@ Definition apply_brule (r : brule) (name : str) (f g : valder) : res valder :=
       Ok {| vd_val := v; vd_der := d |}
   | BPerOperand =>
       do v <- operate_bin C tb (vd_val f) (vd_val g) name; do d <- operate_bin C tb (vd_der f) (vd_der g) name;
+      Ok {| vd_val := v; vd_der := d |}
+  | BCond =>   (* `if`: the condition g selects the branch of the derivative as it selects the branch of the value *)
+      do v <- operate_bin C tb (vd_val f) (vd_val g) name; do d <- operate_bin C tb (vd_der f) (vd_val g) name;
       Ok {| vd_val := v; vd_der := d |}
   end.
 
